@@ -131,6 +131,9 @@ def parse_value(s, i=0):
         while s[j] != '"':
             j += 2 if s[j] == '\\' else 1
         return s[i+1:j], j+1
+    m = re.compile(r'(-?\d+)\.\.(-?\d+)').match(s, i)
+    if m:
+        return list(range(int(m.group(1)), int(m.group(2))+1)), m.end()
     m = re.compile(r'-?\d+').match(s, i)
     if m:
         return int(m.group(0)), m.end()
